@@ -151,7 +151,8 @@ def run(v, tier, seed):
         return summ[0]
 
     def trav_guard(dev, inv):
-        name = trav_cfg("gen_%s_Reach_%s_%s.cfg" % (tier, "_".join(dev) or "none", inv), "Spec", dev, "core", seed % 8, 8, [inv], None)
+        un, sh, nsh = ("lists", seed % 4, 4) if "ScratchPerBucket" in dev else ("core", seed % 8, 8)
+        name = trav_cfg("gen_%s_Reach_%s_%s.cfg" % (tier, "_".join(dev) or "none", inv), "Spec", dev, un, sh, nsh, [inv], None)
         r = vlib.tlc("Traversal", name, SPECDIR, workers=1, timeout=900, env=jenv, heap="2g")
         if r.error: raise vlib.MachineryError("vacuity guard %s: %s" % (dev, r.error))
         if r.violated != inv: raise vlib.MachineryError("vacuity guard: Traversal.tla with Deviations = %s does not violate %s" % (dev, inv))
@@ -262,7 +263,7 @@ def run(v, tier, seed):
         n_wide = int(16000 * scale); wide_files = 2
         n_rand, n_steps, rand_files = int(300 * scale), 40, 2
         n_small, small_files = int(2000 * scale), 1
-        tguards = [(DEV + ["F2"], "TraversalExact"), (DEV + ["F24"], "RouteOnce"), ([], "RouteOnce")]
+        tguards = [(DEV + ["F2"], "TraversalExact"), (DEV + ["F24"], "RouteOnce"), ([], "RouteOnce"), (DEV + ["ScratchPerBucket"], "TraversalExact")]
         rguards = [(DEV + ["F23"], "RouteExact", 1, 3, "KM_full")]
         rmc = [("ops3", 1, 3, "KM_full", ["none", "1"], 3), ("fifo", 2, 1, "KM_fifo", ["none", "1", "nonstr"], 1)]
         gens = [("a", 1, 2, "KM_noF25", "DM_one", "SM_small", ["none", "1"])]
@@ -273,7 +274,7 @@ def run(v, tier, seed):
         n_rand, n_steps, rand_files = int(10000 * scale), 60, 8
         n_small, small_files = (0 if scale >= 1 else int(42750 * scale)), 8          # 0 = the whole small space
         tguards = [(DEV + ["F2"], "TraversalExact"), (DEV + ["F24"], "RouteOnce"), ([], "RouteOnce"), (DEV + ["F24"], "StopOnce"), (DEV + ["NoAlreadyDid"], "TraversalExact"),
-                   (DEV + ["FastPathFirstEntry"], "TraversalExact")]
+                   (DEV + ["FastPathFirstEntry"], "TraversalExact"), (DEV + ["ScratchPerBucket"], "TraversalExact"), (DEV + ["ScratchPerBucket"], "RouteOnce")]
         rguards = [(DEV + ["F23"], "RouteExact", 1, 3, "KM_full"), (DEV + ["F24"], "RouteExact", 1, 3, "KM_full"), (DEV + ["F2"], "RouteExact", 1, 3, "KM_full"), ([], "RouteExact", 1, 3, "KM_full"),
                    (DEV + ["ReflectInverted"], "RouteExact", 1, 3, "KM_full"), (DEV + ["KeepForged"], "SenderTrue", 1, 3, "KM_full"), (DEV + ["HeadQueue"], "PairFIFO", 2, 1, "KM_fifo"),
                    (DEV + ["FirstKeyFilter"], "RouteExact", 1, 3, "KM_full")]
@@ -284,6 +285,10 @@ def run(v, tier, seed):
     uni_prefix = W("trav_" + uni)
     rows_u, su = harness(["trav", uni, uni_nsh, ",".join(str(k) for k in uni_shards), uni_prefix, W("trav_%s_report.ndjson" % uni)], W("trav_%s_report.ndjson" % uni), "traversal enumeration (%s)" % uni, timeout=1500)
     judge_rows(rows_u, "traversal (%s universe)" % uni)
+    # the universe of comma-list patterns: sequences of 1-3 patterns that all have a list-of-literals clause, several of one depth (always complete)
+    LNSH = 4; lists_prefix = W("trav_lists")
+    rows_l, sl = harness(["trav", "lists", LNSH, ",".join(str(k) for k in range(LNSH)), lists_prefix, W("trav_lists_report.ndjson")], W("trav_lists_report.ndjson"), "traversal enumeration (lists)", timeout=1500)
+    judge_rows(rows_l, "traversal (lists universe)")
     wide_prefix = W("trav_wide")
     rows_w, sw = harness(["trav", "wide", n_wide, seed, wide_files, wide_prefix, W("trav_wide_report.ndjson")], W("trav_wide_report.ndjson"), "traversal, random wide cases", timeout=1500)
     judge_rows(rows_w, "traversal (random wide case)")
@@ -291,6 +296,8 @@ def run(v, tier, seed):
     for mode, cnt, steps, nf in (("directed", 0, 0, 1), ("random", n_rand, n_steps, rand_files), ("small", n_small, 0, small_files)):
         rows_h, sh = harness(["hist", mode, cnt, steps, seed, nf, W("hist_" + mode), W("hist_%s_report.ndjson" % mode)], W("hist_%s_report.ndjson" % mode), "routing histories (%s)" % mode, timeout=1500)
         judge_rows(rows_h, "routing history (%s)" % mode)
+        for r in rows_h:
+            if "small_space" in r and sh: notes["harness_runs"][-1].update(r)
         hist[mode] = (rows_h, sh)
 
     # ------------------------------------------------------------------ TLC
@@ -309,6 +316,9 @@ def run(v, tier, seed):
         if su:
             for k in uni_shards:      # (a harness that found 25 violating cases stops early: then there are fewer files)
                 if "%s.%d.ndjson" % (uni_prefix, k) in su["files"]: futs_tt.append(ex.submit(trav_trace, "%s.%d.ndjson" % (uni_prefix, k), uni, (k, uni_nsh)))
+        if sl:
+            for k in range(LNSH):
+                if "%s.%d.ndjson" % (lists_prefix, k) in sl["files"]: futs_tt.append(ex.submit(trav_trace, "%s.%d.ndjson" % (lists_prefix, k), "lists", (k, LNSH)))
         if sw:
             for p in sw["files"]: futs_tt.append(ex.submit(trav_trace, p, "none"))
         futs_rt = []
@@ -412,7 +422,7 @@ def run(v, tier, seed):
     cov = {"states": tot["states"], "transitions": tot["transitions"],
            "traces_validated_against_impl": lines_validated + route_hist + replayed,
            "traversal_cases_run_on_the_real_code_and_validated_by_tlc": lines_validated,
-           "traversal_universe": {"name": uni, "shards_run": len(uni_shards), "of": uni_nsh, "cases": su["cases"] if su else 0, "random_wide_cases": sw["cases"] if sw else 0},
+           "traversal_universe": {"name": uni, "shards_run": len(uni_shards), "of": uni_nsh, "cases": su["cases"] if su else 0, "lists_universe_cases_all_shards": sl["cases"] if sl else 0, "random_wide_cases": sw["cases"] if sw else 0},
            "traversal_counters": trav_counts, "traversal_lines_where_F25_showed": f25_lines,
            "self_enumerated_model_check_cases": mc_cases,
            "route_model_states": route_states,
@@ -420,8 +430,8 @@ def run(v, tier, seed):
            "vacuity_guards": guards_shown, "corrupted_records_rejected": ncorr, "drift_lines": drift_lines,
            "evaluations": lines_validated + sends + replayed,
            "distinct_nontrivial": trav_counts["nonempty"],
-           "rule": "traversal: one case = (tree, key sequence, callback mode); the %s universe is enumerated by case number (every case once; %s), the wide cases are seeded random; non-trivial = the brute-force match set of the case is not empty (counted by TLC, register 2); "
-                   "routing: seeded random histories (3-4 sessions, %d steps), a spread of the small exhaustive space (125 trees x 171 key sets x reflect on/off), 8 directed histories, and a path cover of every transition of a Route.tla instance" % (uni, "all shards" if len(uni_shards) == uni_nsh else "%d of %d shards" % (len(uni_shards), uni_nsh), n_steps),
+           "rule": "traversal: one case = (tree, key sequence, callback mode); the %s universe is enumerated by case number (every case once; %s), the wide cases are seeded random; the lists universe (8 trees x every sequence of 1-3 of 7 patterns with a comma-list clause x 3 modes) always completely; non-trivial = the brute-force match set of the case is not empty (counted by TLC, register 2); "
+                   "routing: seeded random histories (3-4 sessions, %d steps), a spread of the small exhaustive space (125 trees x the key sets x reflect on/off: see harness_runs small_space), 9 directed histories, and a path cover of every transition of a Route.tla instance" % (uni, "all shards" if len(uni_shards) == uni_nsh else "%d of %d shards" % (len(uni_shards), uni_nsh), n_steps),
            "exhaustive": len(uni_shards) == uni_nsh, "samples": samples[:4]}
     cov.update(notes)
     assumptions = ["clause-level matching is taken from the table in Traversal.tla (13 clause tokens over the names in use); every run checks that the real StringMatcher answers like the table (C15 owns its general correctness)",
